@@ -1011,6 +1011,13 @@ func genC11(tier string, rng *rand.Rand, shard, nshards int, emit emitter) {
 				addrs[st+k] = true
 				addrs[st+8*n-1-k] = true
 			}
+			// far behind the payload: 2048 x m + j coils after the start (a byte index held in 8 bits comes round again)
+			for m := 1; m <= 4; m++ {
+				for _, j := range []int{0, 1, 7, 8, rng.Intn(8 * n)} {
+					addrs[st+2048*m+j] = true
+					addrs[st+256*m+j] = true
+				}
+			}
 			// a window that would reach past 65535: the addresses at the bottom of the address space are BEFORE the start
 			if st+8*n > 65535 {
 				for k := 0; k < 8*n && k < 48; k++ {
